@@ -19,6 +19,12 @@
 //   ... | live error <kind>
 //   end ok
 //   endcase
+#include <csignal>
+#include <ctime>
+#include <signal.h>
+#include <time.h>
+#include <unistd.h>
+#include <cstring>
 #include <pika/init.hpp>
 #include <pika/modules/resource_partitioner.hpp>
 #include <pika/runtime/thread_pool_helpers.hpp>
@@ -143,6 +149,30 @@ static int pika_main()
     return 0;
 }
 
+// A start-up that never returns (a decoder loop that does not terminate) burns CPU on THIS thread; pika_main runs on a
+// worker while this thread sleeps, so a limit on this thread's own CPU time (not wall-clock, not process-wide) can only
+// fire when the start-up itself spins.
+static void on_startup_cpu_limit(int)
+{
+    char const* msg = "live diverge\nend ok\nendcase\n";
+    (void) !write(1, msg, std::strlen(msg));
+    _exit(0);
+}
+static void arm_startup_cpu_limit(int seconds)
+{
+    std::signal(SIGUSR2, on_startup_cpu_limit);
+    struct sigevent sev;
+    std::memset(&sev, 0, sizeof(sev));
+    sev.sigev_notify = SIGEV_SIGNAL;
+    sev.sigev_signo = SIGUSR2;
+    timer_t tid;
+    if (timer_create(CLOCK_THREAD_CPUTIME_ID, &sev, &tid) != 0) return;
+    struct itimerspec its;
+    std::memset(&its, 0, sizeof(its));
+    its.it_value.tv_sec = seconds;
+    timer_settime(tid, 0, &its, nullptr);
+}
+
 static void run_case(kase const& c)
 {
     std::printf("%s\n", c.header.c_str());
@@ -206,6 +236,8 @@ static void run_case(kase const& c)
     };
     try
     {
+        std::fflush(stdout);
+        arm_startup_cpu_limit(5);
         pika::init(pika_main, static_cast<int>(args.size()), argv.data(), params);
     }
     catch (std::exception const& e)
